@@ -382,7 +382,8 @@ pub fn shard(tier: Tier, i: usize, n: usize) -> i32 {
             // a runtime thread is blocked for ever: report it, give up the rest of this shard and leave (exiting is
             // what gets rid of the stuck thread)
             let what = format!("bound {} over {}, {} raw client(s) that send {} handshake bytes and then {}", c.ty.name(), c.tr.name(), c.bad_clients, c.offset, BEHAVIOURS[c.behaviour]);
-            println!("{}", json!({"case": k, "findings": [[format!("runtime-hung/{}", BEHAVIOURS[c.behaviour]), format!("{}: the case did not come back within {} s although every wait in it has a {} s horizon: a thread of the socket's runtime is blocked for ever (no timer fires any more), so nothing else on that runtime - other handshakes, established traffic - makes progress", what, e4::CASE_DEADLINE.as_secs(), e4::HORIZON.as_secs())]]}));
+            let (cl, msg) = e4::hung_or_panicked(format!("runtime-hung/{}", BEHAVIOURS[c.behaviour]), format!("{}: the case did not come back within {} s although every wait in it has a {} s horizon: a thread of the socket's runtime is blocked for ever (no timer fires any more), so nothing else on that runtime - other handshakes, established traffic - makes progress", what, e4::CASE_DEADLINE.as_secs(), e4::HORIZON.as_secs()));
+            println!("{}", json!({"case": k, "findings": [[cl, msg]]}));
             let rest = cases.iter().enumerate().filter(|(j, _)| j % n == i && *j > k).count() as u64;
             println!("{}", json!({"skipped": rest + skipped, "after_failures": failing + 1, "budget_exhausted": false}));
             use std::io::Write;
